@@ -19,6 +19,8 @@ DECIDED += ("; R4 position bookkeeping: the cursor stored after a cursor read / 
 DECIDED += ("; R5 name-space checks before creation: open creates a file only where no directory has the name, create_dir_all skips only existing "
             "directories, positioned writes / seeks do their offset arithmetic without a panicking operator, a truncating open logs its SetLen(0) whatever it created, "
             "rename tests the destination's parent, and a chain of pending renames is followed to its origin")
+DECIDED += ("; R6 a listing applies its existence tests to the candidate entry, and a flushed SetLen / Rename changes the durable image "
+            "the way the merged view showed it (shared C07-R14)")
 DECIDED += "; R3 sibling replays of the pending log consider the same record kinds (file_len ~ read_file, dir_entries ~ dir_has_children)"
 ASSUMPTIONS = ["Rust's &T / &mut T discipline: a function taking &Fs cannot mutate the tree (Fs has no interior mutability: checked)"]
 
@@ -356,6 +358,34 @@ def r5(ctx):
     ctx.floor(R, 7)
 
 
+def r6(ctx):
+    R = "C10-R6"
+    ctx.rule(R, "a listing tests the candidate, not the directory: every existence test (file_exists / dir_exists / symlink_exists) inside the "
+                "loops of Fs::dir_entries and Fs::dir_has_children is applied to a name drawn from the collection being walked (a persisted key "
+                "or a field of the pending record), never to the function's own parameter - a test on the directory itself is constant over the "
+                "loop and lets removed entries through; and a flushed record changes the durable image the way the merged view showed it "
+                "(shared C07-R14: SetLen resizes, Rename replaces)")
+    n = 0
+    for fn in ("dir_entries", "dir_has_children"):
+        b = ctx.w.bodies.get("turmoil_fs::Fs::" + fn)
+        if not b:
+            if ctx.strict:
+                ctx.bad(R, f"anchor-missing:{fn}", "", "listing function not found")
+            continue
+        for fb in ctx.w.family(b.id):
+            k = 0
+            for bb, t in fb.calls(re.compile(r"^turmoil_fs::Fs::(file_exists|dir_exists|symlink_exists)$")):
+                at = Slicer(ctx.w).atoms(fb, t["args"][1])
+                cand = [a for a in at if not a.startswith(("arg:", "const:"))]
+                n += 1
+                ctx.inst(R, f"{fn}:{t['f'].rsplit('::', 1)[1]}#{k}", bool(cand), t["s"], "the existence test is applied to the candidate entry" if cand else
+                         f"`{t['f'].rsplit('::', 1)[1]}` in Fs::{fn} is applied to the function's own parameter (the directory being listed), not to the candidate entry: "
+                         "an entry that was removed (pending RemoveDir / RemoveFile) is still listed - read_dir shows a name for which metadata() returns NotFound")
+                k += 1
+    ctx.floor(R, 10)
+    C07.r14(ctx)
+
+
 def run(ctx):
     if ctx.config not in ("all", "fs", "fs_iou"):
         ctx.info("C10-R1", "feature-off", "", "unstable-fs not enabled in this configuration: nothing to analyse")
@@ -365,6 +395,7 @@ def run(ctx):
     r3(ctx)
     r4(ctx)
     r5(ctx)
+    r6(ctx)
     C07.r3(ctx)   # R3: syncs move records, never drop or duplicate them
     C07.r1(ctx)   # R3: only sync / crash touch the persisted image
     C04.r6(ctx)   # R4: per-host isolation
